@@ -231,6 +231,12 @@ def run_case(case):
             if any(counts.get(k, 0) == 0 or first_tick[k] >= t_inj for k in prev_keys) or \
                     any(c in ("Slow",) for c in inj["cmds_running"]):
                 cl.append("injection-overlaps-earlier-one")
+        if inj["refused"] is not None:
+            cl.append("inject-refused")
+            if inj["state"] in ("Running", "Paused", "Holding"):
+                viol("inject:refused:%s" % inj["state"], "injection %d at tick %d during an active run (System State %s) was refused: %s; "
+                     "snippet %r" % (n_inj + 1, t_inj, inj["state"], inj["refused"], inj["pcode"]))
+            continue
         later = [r for r in acc if (r["tick"], r["op"]) > (t_inj, inj["op"])]
         t_edit = later[0]["tick"] if later else None
         # ---- exactly once, in order, only while running ------------------------------------------------------------
